@@ -170,8 +170,14 @@ def coq_check_properties(pid, deps=(), timeout=1500, extra=()):
     try:
         rc, out, err = 0, '', ''
         for f in files:       # the statement files of the property (the original one and one per later package)
+            # the Print Assumptions output belongs to the compiled file: make has just re-checked the file if anything it depends on changed,
+            # so the output is re-used as long as it is newer than the .vo (re-compiling a Flocq-based file only to print it again takes a minute)
+            cache = os.path.join(COQ, f[:-2] + '.pa.txt'); vo = os.path.join(COQ, f + 'o')
+            if os.path.exists(cache) and os.path.exists(vo) and os.path.getmtime(cache) >= os.path.getmtime(vo) and os.path.getmtime(cache) >= os.path.getmtime(os.path.join(COQ, f)):
+                out += open(cache).read(); continue
             rc1, out1, err1 = sh(['timeout', str(timeout), 'coqc', '-Q', 'theories', 'Chibicc', '-w', '-deprecated-syntactic-definition,-deprecated', f], cwd=COQ, timeout=timeout + 30)
             rc = rc or rc1; out += out1; err += err1
+            if rc1 == 0: open(cache, 'w').write(out1)
     finally:
         fcntl.flock(lock, fcntl.LOCK_UN); lock.close()
     res['log'] = log + out + err
@@ -185,10 +191,10 @@ def coq_check_properties(pid, deps=(), timeout=1500, extra=()):
         if l.startswith('Axioms:'):
             grab = True; continue
         if grab:
-            if l and not l[0].isspace() and ':' in l:
-                ax.append(l.split(':')[0].strip())
-            elif l and not l[0].isspace():
-                grab = False
+            if l and not l[0].isspace():
+                name = l.split(' :')[0].split(':')[0].strip()
+                if re.fullmatch(r'[A-Za-z_][\w.\']*', name): ax.append(name)       # an axiom's qualified name; its type follows, indented
+                else: grab = False
     res['axioms'] = sorted(set(ax))
     return res
 
